@@ -60,6 +60,8 @@ def gen_cases(ctx, families, n, suffix_share=0.3, corrupt_limit=6, corrupt_share
                     exact.append(s)
             if corrupt_limit and rng.random() < corrupt_share:
                 mutants += enc.corruptions(c, rng, limit=corrupt_limit)
+        # count ladder: the first list of a case with exactly k entries, for every k around a power of two (each once)
+        exact += enc.count_ladder(rng, [name], None if ctx.thorough else (16, 17, 64, 65, 128, 129, 256, 257, 400))
     return exact, mutants
 
 
